@@ -14,6 +14,9 @@ struct ReqFam {
   static SK make(int cfg) { return SK(static_cast<uint16_t>(cfg % 1000), cfg >= 1000); }
   static std::string cfg_text(int cfg) { return "k=" + std::to_string(cfg % 1000) + (cfg >= 1000 ? " HRA" : " LRA"); }
   static bool allow_rt() { return true; }
+  static bool has_exact_region() { return true; }
+  // the sketch publishes zero error at this rank (within 3k/n of the accurate end, or not in estimation mode)
+  static bool exact_claim(const SK& s, double true_rank) { return s.get_rank_lower_bound(true_rank, 3) == s.get_rank_upper_bound(true_rank, 3); }
   static SK roundtrip(const SK& s) {
     std::stringstream ss(std::ios::in | std::ios::out | std::ios::binary);
     s.serialize(ss);
@@ -61,7 +64,7 @@ static void sampled_cell_req(const c08::Cell& c, Rng& r) {
   std::vector<c08::Welford> zacc(zq.size());
   std::vector<double> floor_hw(zq.size(), 0.0);
   c08::Welford frac, frac_near;     // per-trial fraction of (query, criterion) pairs inside the 3-sigma bounds; near = within 1% of the accurate end
-  uint64_t near_literal_out = 0;
+  uint64_t near_literal_out = 0, exact_true_claims = 0;
   const double unit = 1.0 / static_cast<double>(c.n);
   uint64_t pairs = 0, pairs_ok = 0, near_pairs = 0, near_ok = 0, exact_claims = 0;
   std::string worst; double worst_excess = 0;
@@ -82,6 +85,11 @@ static void sampled_cell_req(const c08::Cell& c, Rng& r) {
         const double lb = sk->get_rank_lower_bound(est, 3), ub = sk->get_rank_upper_bound(est, 3);
         const bool in = (lb - 1e-12 <= tr) && (tr <= ub + 1e-12);
         const bool near = hra ? tr >= 0.99 : tr <= 0.01;
+        if (ReqFam::exact_claim(*sk, tr)) {   // deterministic: zero error published at the TRUE rank -> estimate must be that rank in every run
+          exact_true_claims++;
+          VF_CHECK(std::fabs(est - tr) <= 1e-12, kp + "rank-not-exact-where-zero-error-is-published",
+                   ctx + " trial=" + std::to_string(trial) + " v=" + str(t.dv[q]) + (incl ? " inclusive" : " exclusive") + " true_rank=" + str(tr) + " get_rank=" + str(est));
+        }
         if (lb == ub) exact_claims++;
         tot++; ok += in;
         // near the accurate end the claimed sigma drops below the rank resolution 1/n (e.g. k=12, n=1e4, rank 0.005: 3 sigma
@@ -131,12 +139,141 @@ static void sampled_cell_req(const c08::Cell& c, Rng& r) {
   count("req_smp_pairs", pairs);
   count("req_smp_pairs_near_accurate_end", near_pairs);
   count("req_smp_pairs_exact_claim", exact_claims);
+  count("req_smp_exact_asserts", exact_true_claims);
   count("req_smp_pairs_outside_bounds", pairs - pairs_ok);
   count("req_smp_pairs_near_end_literally_outside_bounds", near_literal_out);
   sig(mix64(mix64(c.n, static_cast<uint64_t>(c.cfg)), mix64(static_cast<uint64_t>(c.order * 4 + c.merge), pairs_ok)));
   if (getenv("C08_VERBOSE")) fprintf(stderr, "%s\n", res.c_str());
   if (want_sample()) sample("{\"part\":\"sampled\",\"cell\":" + jstr(res) + "}");
 }
+
+// ---- deterministic exact-region sweeps -----------------------------------------------------------
+// For every item whose TRUE rank r (either criterion) lies where the sketch publishes zero error (lb(r,3) == ub(r,3)),
+// get_rank must return r exactly, in every seeded run.  `sorted` = all items that reached the sketch, ascending.
+struct ExactStats { uint64_t asserts = 0, asserts_est_mode = 0, sketches = 0, sketches_est_mode = 0; };
+static bool check_exact_region(const ReqFam::SK& s, const std::vector<float>& sorted, int k, bool hra, const std::string& key, const std::string& ctx, ExactStats& st) {
+  const size_t n = sorted.size();
+  if (n == 0) return true;
+  const bool est_mode = s.is_estimation_mode();
+  st.sketches++; if (est_mode) st.sketches_est_mode++;
+  const size_t span = std::min<size_t>(n, static_cast<size_t>(3 * k + 2));   // only the 3k items at the accurate end (plus margin) can have a rank in the region
+  float prev = 0; bool first = true;
+  for (size_t j = 0; j < span; ++j) {
+    const float v = sorted[hra ? n - 1 - j : j];
+    if (!first && v == prev) continue;
+    first = false; prev = v;
+    const uint64_t below = static_cast<uint64_t>(std::lower_bound(sorted.begin(), sorted.end(), v) - sorted.begin());
+    const uint64_t atmost = static_cast<uint64_t>(std::upper_bound(sorted.begin(), sorted.end(), v) - sorted.begin());
+    for (int incl = 0; incl < 2; ++incl) {
+      const double tr = static_cast<double>(incl ? atmost : below) / static_cast<double>(n);
+      if (!ReqFam::exact_claim(s, tr)) continue;
+      const double est = s.get_rank(v, incl == 1);
+      st.asserts++; if (est_mode) st.asserts_est_mode++;
+      checked();
+      if (std::fabs(est - tr) > 1e-12) {
+        fail(key, ctx + " n=" + std::to_string(n) + " v=" + str(v) + (incl ? " inclusive" : " exclusive") + " true_rank=" + str(tr) + " (" + std::to_string(incl ? atmost : below) + "/" +
+             std::to_string(n) + ") get_rank=" + str(est) + " (" + str(est * static_cast<double>(n)) + "/" + std::to_string(n) + ") published lb=ub=" + str(s.get_rank_lower_bound(tr, 3)));
+        return false;
+      }
+    }
+  }
+  return true;
+}
+static void insert_sorted(std::vector<float>& v, float x) { v.insert(std::upper_bound(v.begin(), v.end(), x), x); }
+static void flush_exact(const ExactStats& st) {
+  count("req_exact_asserts", st.asserts);
+  count("req_exact_asserts_estimation_mode", st.asserts_est_mode);
+  count("req_exact_sketches_checked", st.sketches);
+  count("req_exact_sketches_checked_estimation_mode", st.sketches_est_mode);
+}
+
+// plain streams: every n in 1..nmax along growing streams (4 arrival orders, queried after every update) and a fresh,
+// never-queried sketch for every n in 1..nfresh
+static void exact_stream_case(int k, bool hra, Rng& r) {
+  const bool T = G().thorough();
+  const int nmax = T ? 12000 : 3000, nfresh = (T ? 80 : 40) * k;
+  const std::string ctx0 = std::string("req exact-region plain stream k=") + std::to_string(k) + (hra ? " HRA" : " LRA");
+  describe(ctx0 + " nmax=" + std::to_string(nmax) + " nfresh=" + std::to_string(nfresh));
+  const std::string key = "req|exact-region|single-stream|rank-not-exact-where-zero-error-is-published";
+  ExactStats st;
+  std::vector<float> perm(static_cast<size_t>(nmax));
+  for (int i = 0; i < nmax; ++i) perm[static_cast<size_t>(i)] = static_cast<float>(i);
+  r.shuffle(perm);
+  static const char* onames[] = {"random", "ascending", "descending", "duplicates"};
+  for (int order = 0; order < 4; ++order) {
+    const uint32_t seed = static_cast<uint32_t>(r.next());
+    random_utils::random_bit.script = nullptr; random_utils::random_bit.seed(seed);
+    ReqFam::SK s(static_cast<uint16_t>(k), hra);
+    std::vector<float> sorted;
+    bool ok = true;
+    for (int i = 0; i < nmax && ok; ++i) {
+      const float v = order == 0 ? perm[static_cast<size_t>(i)] : order == 1 ? static_cast<float>(i) : order == 2 ? static_cast<float>(nmax - i) : static_cast<float>(r.below(static_cast<uint64_t>(nmax / 8)));
+      s.update(v); insert_sorted(sorted, v);
+      ok = check_exact_region(s, sorted, k, hra, key, ctx0 + " order=" + onames[order] + " coin_seed=" + std::to_string(seed) + " (queried after every update)", st);
+    }
+    count("req_exact_stream_lengths", static_cast<uint64_t>(nmax));
+  }
+  {
+    std::vector<float> sorted;
+    bool ok = true;
+    for (int n = 1; n <= nfresh && n <= nmax && ok; ++n) {
+      const uint32_t seed = static_cast<uint32_t>(r.next());
+      random_utils::random_bit.seed(seed);
+      ReqFam::SK s(static_cast<uint16_t>(k), hra);
+      for (int i = 0; i < n; ++i) s.update(perm[static_cast<size_t>(i)]);
+      insert_sorted(sorted, perm[static_cast<size_t>(n - 1)]);
+      ok = check_exact_region(s, sorted, k, hra, key, ctx0 + " order=random fresh sketch coin_seed=" + std::to_string(seed), st);
+      count("req_exact_stream_lengths");
+    }
+  }
+  flush_exact(st);
+  count("req_exact_stream_cases");
+  sig(mix64(mix64(static_cast<uint64_t>(k), hra), st.asserts));
+}
+
+// two-sketch merges: for a list of n1, every n2 in 1..25k; merged copy in alternating direction (a<-b, b<-a), every third by move
+static void exact_merge_case(int k, bool hra, Rng& r) {
+  const bool T = G().thorough();
+  const int N = 25 * k;
+  std::vector<int> n1s = {36, 78, 85, 1, 3 * k, 3 * k + 1, 6 * k, 6 * k + 1};
+  const int extra = T ? 150 : 56;
+  for (int i = 0; i < extra; ++i) n1s.push_back(static_cast<int>(r.range(1, N)));
+  const std::string ctx0 = std::string("req exact-region two-sketch merge k=") + std::to_string(k) + (hra ? " HRA" : " LRA");
+  describe(ctx0 + " n1 values=" + std::to_string(n1s.size()) + " n2=1.." + std::to_string(N));
+  const std::string key = "req|exact-region|merge-2way|rank-not-exact-where-zero-error-is-published";
+  ExactStats st;
+  size_t li = 0;
+  for (int n1 : n1s) {
+    if (n1 > N) n1 = N;
+    const bool overlap = (li++ % 4) == 3;          // a and b draw from one small domain (ties across the two sketches)
+    const uint32_t seed = static_cast<uint32_t>(r.next());
+    random_utils::random_bit.script = nullptr; random_utils::random_bit.seed(seed);
+    ReqFam::SK a(static_cast<uint16_t>(k), hra), b(static_cast<uint16_t>(k), hra);
+    std::vector<float> all;
+    std::vector<float> pa(static_cast<size_t>(n1)), pb(static_cast<size_t>(N));
+    for (int i = 0; i < n1; ++i) pa[static_cast<size_t>(i)] = overlap ? static_cast<float>(r.below(static_cast<uint64_t>(N))) : static_cast<float>(2 * i);
+    for (int i = 0; i < N; ++i) pb[static_cast<size_t>(i)] = overlap ? static_cast<float>(r.below(static_cast<uint64_t>(N))) : static_cast<float>(2 * i + 1);
+    r.shuffle(pa); r.shuffle(pb);
+    for (float v : pa) { a.update(v); insert_sorted(all, v); }
+    bool ok = true;
+    for (int n2 = 1; n2 <= N && ok; ++n2) {
+      b.update(pb[static_cast<size_t>(n2 - 1)]); insert_sorted(all, pb[static_cast<size_t>(n2 - 1)]);
+      const int dir = n2 % 3;
+      ReqFam::SK c(dir == 1 ? b : a);
+      if (dir == 0) c.merge(b);
+      else if (dir == 1) c.merge(a);
+      else { ReqFam::SK tmp(b); c.merge(std::move(tmp)); }
+      ok = check_exact_region(c, all, k, hra, key, ctx0 + " n1=" + std::to_string(n1) + " n2=" + std::to_string(n2) + (dir == 1 ? " b.merge(a)" : dir == 0 ? " a.merge(b)" : " a.merge(move(b))") +
+                              (overlap ? " overlapping values" : "") + " coin_seed=" + std::to_string(seed), st);
+      count("req_exact_merge_pairs");
+    }
+  }
+  flush_exact(st);
+  count("req_exact_merge_cases");
+  sig(mix64(mix64(static_cast<uint64_t>(k), hra ? 3 : 2), st.asserts));
+}
+static const int EXACT_KS[5] = {4, 6, 8, 12, 20};
+static const uint64_t NEXACT = 20;   // 5 k x HRA/LRA x {stream, merge}
 
 // ---- case layout -------------------------------------------------------------------------------
 static const int NEXH_Q = 64, NEXH_T = 640;
@@ -154,7 +291,7 @@ static std::vector<c08::Cell> cells(bool T) {
   if (T) { v.push_back(c08::Cell{1004, 100000, 1, 0, tr}); v.push_back(c08::Cell{4, 100000, 1, 1, tr}); v.push_back(c08::Cell{1200, 100000, 1, 1, 1000}); v.push_back(c08::Cell{1006, 100000, 1, 0, tr}); }
   return v;
 }
-uint64_t num_cases(bool thorough) { return static_cast<uint64_t>(thorough ? NEXH_T : NEXH_Q) + cells(thorough).size(); }
+uint64_t num_cases(bool thorough) { return static_cast<uint64_t>(thorough ? NEXH_T : NEXH_Q) + cells(thorough).size() + NEXACT; }
 
 void run_case(uint64_t idx, Rng& r) {
   const bool T = G().thorough();
@@ -173,7 +310,12 @@ void run_case(uint64_t idx, Rng& r) {
     c08::exhaustive_case<ReqFam>(r, want_merge, fmin, fmax);
   } else {
     const auto cs = cells(T);
-    sampled_cell_req(cs[idx - nexh], r);
+    if (idx - nexh < cs.size()) sampled_cell_req(cs[idx - nexh], r);
+    else {
+      const uint64_t e = idx - nexh - cs.size();       // 0..19
+      const int k = EXACT_KS[e % 5]; const bool hra = ((e / 5) % 2) == 1;
+      if (e < 10) exact_stream_case(k, hra, r); else exact_merge_case(k, hra, r);
+    }
   }
 }
 
